@@ -179,7 +179,9 @@ def bounded(ses):
                 bad.append((root, "second open differs: " + d))
     # two products with identical file names open at the same time: each tree must deliver its own pixels
     fsA, imagesA, _ = e2e.make_product("/c13/twinA", k=2, level="1.5", seed=ses.seed + 100)
-    fsB, imagesB, _ = e2e.make_product("/c13/twinB", k=2, level="1.5", seed=ses.seed + 200)
+    # same file names, shapes, dtypes and chunking — only the pixels differ
+    imagesB = [(p, s_, ((d.astype("uint32") + 1 + i) % 65536).astype("uint16")) for i, (p, s_, d) in enumerate(imagesA)]
+    fsB, imagesB, _ = e2e.make_product("/c13/twinB", level="1.5", images=imagesB)
     tA = open_alos2("memory:///c13/twinA", backend_options={"use_cache": False})
     tB = open_alos2("memory:///c13/twinB", backend_options={"use_cache": False})
     n += 2
